@@ -18,6 +18,7 @@ KINDS = {
     "C08": ["timed_window", "timed_window_unique", "partition"],
     "C13": ["rate_limit", "delay"],
     "C14": ["latest"],
+    "C16A": ["partition", "timed_window_unique"],
 }
 
 
@@ -38,6 +39,8 @@ def oracle(prop, case, obs):
         return asyncoracle.check_c13(case, obs)
     if prop == "C14":
         return asyncoracle.check_c14(case, obs)
+    if prop == "C16A":
+        return asyncoracle.check_c16a(case, obs)
     return []
 
 
@@ -86,6 +89,23 @@ def single_node_part(prop, oprop, tier, rng, out, known, cov):
                 for i in rng.sample(idx, min(len(idx), rng.choice([1, 1, 2]))):
                     c["actions"][i] = ["ackfail"]
                     faulty = True
+            if oprop == "C16A":
+                # the key function of the node raises for some elements (the node sits directly behind the emitter)
+                vals = [a[2] for a in c["actions"] if a[0] == "emit" and isinstance(a[2], int)]
+                if not vals or c.get("react") or any(a[0] == "mix" for a in c["actions"]):
+                    continue
+                if kind == "partition" and c["node"].get("key") is None:
+                    c["node"]["key"] = rng.choice([["KeyMod", 2], ["KeyId"]])
+                    c["node"]["timeout"] = None
+                c["node"]["userfail"] = rng.sample(vals, min(len(vals), rng.choice([1, 1, 2])))
+            if oprop == "C04" and not faulty and not c.get("react") and rng.random() < 0.25 \
+                    and not any(a[0] == "mix" for a in c["actions"]) \
+                    and (kind in ("timed_window_unique", "map_async") or (kind == "partition" and c["node"].get("key") is not None)):
+                # a user function of the node itself (key function / mapped coroutine) raises for some elements
+                vals = [a[2] for a in c["actions"] if a[0] == "emit" and isinstance(a[2], int)]
+                if vals:
+                    c["node"]["userfail"] = rng.sample(vals, min(len(vals), rng.choice([1, 1, 2])))
+                    faulty = True
             try:
                 o = asyncfam.run_case(c)
             except Exception as e:
@@ -96,7 +116,7 @@ def single_node_part(prop, oprop, tier, rng, out, known, cov):
             if any(ob["deliv"] for ob in o[1:]):
                 nontriv.add(json.dumps(c, sort_keys=True))
             for (p, sig, msg) in (asyncoracle.check_failed(c, o) if faulty else oracle(oprop, c, o)):
-                sig = sig.replace("C05A", "C05")
+                sig = sig.replace("C05A", "C05").replace("C16A", "C16")
                 if sig in known:
                     out.known_finding(sig, known[sig]["what"])
                     continue
@@ -108,7 +128,7 @@ def single_node_part(prop, oprop, tier, rng, out, known, cov):
                 nfind += 1
                 break
     # correspondence (cases with a burst / mix have no model action: oracle only)
-    modelled = [(c, o) for (c, o) in co if c["node"]["k"] in asyncrun.MODELS and not any(a[0] in ("burst", "seq", "chain", "mix", "ackfail") for a in c["actions"]) and not c.get("react")]
+    modelled = [(c, o) for (c, o) in co if c["node"]["k"] in asyncrun.MODELS and not any(a[0] in ("burst", "seq", "chain", "mix", "ackfail") for a in c["actions"]) and not c.get("react") and not c["node"].get("userfail")]
     mism, errors = asyncrun.correspondence(prop, modelled)
     for p_, o_ in errors:
         out.violation("%s/correspondence-error" % prop, "coqc failed on generated cases: %s" % o_[-400:], {"file": p_}, no_input=True)
@@ -180,7 +200,7 @@ def thread_part(prop, oprop, tier, rng, out, known, cov):
 
 def run(prop, tier, seed, replay=None, extra=None):
     """prop: property id; the asynchronous part of C05 is invoked by check_sync with extra outcome."""
-    oprop = {"C05": "C05A", "C10": "C10A"}.get(prop, prop)
+    oprop = {"C05": "C05A", "C10": "C10A", "C16": "C16A"}.get(prop, prop)
     out = extra if extra is not None else common.Outcome(prop, tier, seed)
     proof = common.props_check(prop) if extra is None else None
     known = common.known_signatures(prop)
@@ -202,7 +222,7 @@ def run(prop, tier, seed, replay=None, extra=None):
                 (out.known_finding(sig, known[sig]["what"]) if sig in known else out.violation(sig, msg, {"case": c, "family": "async-chain"}))
         else:
             o = asyncfam.run_case(c)
-            faulty_r = any(a[0] == "ackfail" for a in c["actions"])
+            faulty_r = any(a[0] == "ackfail" for a in c["actions"]) or bool(c["node"].get("userfail"))
             for (p, sig, msg) in (asyncoracle.check_failed(c, o) if faulty_r else oracle(oprop, c, o)):
                 sig = sig.replace("C05A", "C05")
                 (out.known_finding(sig, known[sig]["what"]) if sig in known else out.violation(sig, msg, {"case": c, "family": "async-single"}))
